@@ -73,6 +73,21 @@ def _exact_sqrt(fr):
     return None
 
 
+class Poison:
+    """value that may be computed but never used (e.g. `isy = 1j*sx` when sy is None)"""
+
+    def __init__(self, why):
+        self.why = why
+
+    def _boom(self, *a, **k):
+        raise TypeError("use of a poisoned symbolic value: " + self.why)
+    __add__ = __radd__ = __sub__ = __rsub__ = __mul__ = __rmul__ = __truediv__ = __rtruediv__ = _boom
+    __neg__ = __abs__ = __pow__ = __bool__ = __float__ = __eq__ = __ne__ = __lt__ = __le__ = __gt__ = __ge__ = _boom
+    __hash__ = object.__hash__
+    real = property(_boom)
+    imag = property(_boom)
+
+
 class R:
     """real / ring scalar"""
     __slots__ = ('n', 'ring')
@@ -116,12 +131,11 @@ class R:
         return None
 
     def _bin(self, other, op, swap=False):
+        if isinstance(other, (complex, np.complexfloating)) and not isinstance(other, (float, int)) and other.imag == 0:
+            other = float(other.real)
         if isinstance(other, (complex, np.complexfloating)) and not isinstance(other, (float, int)):
             if self.ring:
-                if other.imag == 0:
-                    other = other.real
-                else:
-                    raise TypeError("complex constant times opaque ring element")
+                return Poison("non-real complex constant combined with an opaque ring element")
             else:
                 c = Cx.lift(other)
                 s = Cx(self, R.const(0))
